@@ -454,6 +454,46 @@ theorem fast_path_agrees_stateful (hrun2 : ∀ f a b, J.run2 f a b = J.run f [a,
 
 end armS
 
+/-! ## 3c. op-assignments on a precedence -/
+
+/-- **failed_precedence_opassign_preserves**: an op-assignment `f::precedence op= v` that does not
+complete (its operator function raises or panics, or its result is not a number) leaves the
+operator with the precedence — and associativity — it had -/
+theorem failed_precedence_opassign_preserves (pr : Precedence)
+    (combine : Prec → Precedence → Out (Option Prec))
+    (h : (precedenceOpAssign pr combine).1 ≠ .ok ()) : (precedenceOpAssign pr combine).2 = pr := by
+  unfold precedenceOpAssign at *
+  simp only [setPrecedence] at *
+  cases hc : combine pr.p pr with
+  | ok o => cases o with
+    | none => simp
+    | some p => simp [hc] at h
+  | throw => simp
+  | panic => simp
+
+/-- while the operator function of the op-assignment runs, the operator still carries its OLD
+precedence (dropping a precedence is a no-op), and a completed op-assignment stores exactly the
+function's result, keeping the associativity -/
+theorem opassign_operator_sees_old_precedence (pr : Precedence)
+    (combine : Prec → Precedence → Out (Option Prec)) :
+    precedenceOpAssign pr combine =
+      match combine pr.p pr with
+      | .ok (some p) => (.ok (), ⟨p, pr.a⟩)
+      | .ok none => (.throw, pr)
+      | .throw => (.throw, pr)
+      | .panic => (.panic, pr) := by
+  unfold precedenceOpAssign
+  simp only [setPrecedence]
+  cases combine pr.p pr with
+  | ok o => cases o <;> rfl
+  | throw => rfl
+  | panic => rfl
+
+-- non-vacuity: a failing and a succeeding op-assignment on precedence 5
+example : precedenceOpAssign ⟨.fin 5, .right⟩ (fun _ _ => .throw) = (.throw, ⟨.fin 5, .right⟩) := rfl
+example : precedenceOpAssign ⟨.fin 5, .right⟩ (fun old _ => .ok (some (match old with | .fin r => .fin (r + 2) | .nan => .nan)))
+    = (.ok (), ⟨.fin 7, .right⟩) := rfl
+
 /-! ## 4. `LvalueChainEvaluator` is the same evaluator -/
 
 /-- destructuring chains group exactly like expression chains (C12 uses this) -/
